@@ -1,5 +1,6 @@
 import TTModel.Driver
 import TTModel.Expr
+import TTModel.ExprK
 /-!
 # Driver for C15: exact forward-mode differentiation of TT expressions with dual numbers
 
@@ -70,11 +71,21 @@ def setAt {β : Type} : List β → Nat → β → List β
 
 def run : PM String := do
   let op ← next
-  if op != "ad" && op != "adp" then throw s!"op? {op}"
+  if op != "ad" && op != "adp" && op != "adk" then throw s!"op? {op}"
   let nT ← nat; let ts ← many nT tt
   let nM ← nat; let ms ← many nM tt
   let kind ← next; let oi ← nat; let ci ← nat
-  let lets ← (if op == "adp" then do let k ← nat; many k (do let i ← nat; let s ← se; pure (i, s)) else pure #[])
+  let lets ← (if op == "adp" then do let k ← nat; many k (do let i ← nat; let s ← se; pure (LetKind.scale, i, s))
+              else if op == "adk" then do
+                let k ← nat
+                many k (do
+                  let kd ← next
+                  let kind ← (match kd with
+                    | "scale" => pure LetKind.scale | "shift" => pure LetKind.shift
+                    | "ssub" => pure LetKind.shiftSub | "rsub" => pure LetKind.shiftRsub
+                    | _ => throw s!"letkind? {kd}")
+                  let i ← nat; let s ← se; pure (kind, i, s))
+              else pure #[])
   let e ← se
   let envT := ts.toList.map (·.2)
   let envM := ms.toList.map (·.2)
@@ -89,7 +100,7 @@ def run : PM String := do
       let tracked := setAt (base.map lift) ci pc
       let eT := if kind == "M" then liftEnv envT else setAt (liftEnv envT) oi tracked
       let eM := if kind == "M" then setAt (liftEnv envM) oi tracked else liftEnv envM
-      evalProg eT eM lets.toList e
+      evalProgK eT eM lets.toList e
     let v := (evalAt none).v
     let grads := (List.range total).map (fun p => (evalAt (some p)).d)
     let gs := grads.foldl (fun acc g => acc ++ " " ++ toString g) ""
